@@ -399,3 +399,87 @@ def pragma_lines_single_writer():
     bad += [x for x in sites if x[3] == "rebinding" and x[1] not in ("TokenizedMarkdown.__parse_blocks_pass", "ParseBlockPassProperties.__init__")]
     return [{"name": "structural::C11::pragma_lines_single_writer", "ok": not bad and bool(ok_item), "info": pragma_lines_single_writer.__doc__,
              "detail": f"sites {sites} unexpected {bad}"}]
+
+
+# ------------------------------------------------------------------------------------------------ C10: scan is read-only
+WRITE_CALLS = {"shutil.copyfile", "shutil.copy", "shutil.move", "os.remove", "os.replace", "os.rename", "os.unlink", "os.rmdir", "os.mkdir",
+               "os.makedirs", "tempfile.NamedTemporaryFile", "tempfile.mkstemp", "tempfile.mkdtemp", "tempfile.TemporaryDirectory"}
+
+
+def fs_write_sites():
+    out = []
+    for rel, full in py_files():
+        for q, fn in enclosing_functions(parse(full)):
+            for n in ast.walk(fn):
+                if not isinstance(n, ast.Call):
+                    continue
+                f = ast.unparse(n.func)
+                hit = None
+                if f in WRITE_CALLS:
+                    hit = f
+                elif f == "open" or f.endswith(".open"):
+                    mode = n.args[1] if len(n.args) > 1 else next((k.value for k in n.keywords if k.arg == "mode"), None)
+                    m = mode.value if isinstance(mode, ast.Constant) else ("r" if mode is None else "?")
+                    if any(c in str(m) for c in "wax+?"):
+                        hit = f"open(mode={m})"
+                elif isinstance(n.func, ast.Attribute) and n.func.attr in ("write_text", "write_bytes", "unlink", "touch", "rename"):
+                    hit = f
+                if hit:
+                    out.append((rel, q, n.lineno, hit))
+    return out
+
+
+@check("C10")
+def scan_is_read_only():
+    """every call in pymarkdown/ that can create, change or delete a file is in a function that is only reachable in fix mode,
+    or is the stdin spool of __scan_from_stdin (created and removed in the same function, proved), or the --log-file handler,
+    or the API's fix_string"""
+    allowed = {
+        ("pymarkdown/file_scan_helper.py", "FileScanHelper.__scan_from_stdin"): "stdin spool (removed on every exit: contract of __scan_from_stdin)",
+        ("pymarkdown/file_scan_helper.py", "FileScanHelper.__get_temporary_file_name"): "fix only",
+        ("pymarkdown/file_scan_helper.py", "FileScanHelper.__process_file_fix_pass"): "fix only",
+        ("pymarkdown/file_scan_helper.py", "FileScanHelper.__process_file_fix_lines"): "fix only",
+        ("pymarkdown/file_scan_helper.py", "FileScanHelper.__process_file_fix_tokens_apply_fixes"): "fix only",
+        ("pymarkdown/api.py", "PyMarkdownApi.fix_string"): "API fix of a string: its own temporary file",
+        ("pymarkdown/api.py", "PyMarkdownApi.scan_string"): "?",
+    }
+    sites = fs_write_sites()
+    out = []
+    bad = [x for x in sites if (x[0], x[1]) not in allowed and not x[0].endswith("application_logging.py")]
+    out.append({"name": "structural::C10::write_sites", "ok": not bad, "info": scan_is_read_only.__doc__, "detail": f"sites {sites}; unexpected {bad}"})
+    # fix-only functions are reachable only through __fix_specific_file, which is called only under `if in_fix_mode:`
+    mi = front.load_module("pymarkdown/file_scan_helper.py")
+    ci = mi.classes["FileScanHelper"]
+    callers = {}
+    for mname, fi in ci.methods.items():
+        for n in ast.walk(fi.node):
+            if isinstance(n, ast.Call) and isinstance(n.func, ast.Attribute) and isinstance(n.func.value, ast.Name) and n.func.value.id == "self" \
+                    and n.func.attr in ci.methods:
+                callers.setdefault(n.func.attr, set()).add(mname)
+    fix_only = {front.mangle(q.split(".")[1], "FileScanHelper") for (rel, q), why in allowed.items() if why == "fix only"}
+    entry = front.mangle("__fix_specific_file", "FileScanHelper")
+    seen = set()
+    work = list(fix_only)
+    leak = []
+    while work:
+        m = work.pop()
+        if m in seen or m == entry:
+            continue
+        seen.add(m)
+        cs = callers.get(m, set())
+        if not cs:
+            leak.append(f"{m} has no caller inside the class (entry point?)")
+        work.extend(cs)
+    pub = [m for m in seen if not m.startswith("_FileScanHelper__")]
+    ok_graph = not leak and not pub
+    # the single call of __fix_specific_file sits in the body of `if in_fix_mode:` in process_files_to_scan
+    ok_guard = False
+    p = ci.methods["process_files_to_scan"].node
+    for n in ast.walk(p):
+        if isinstance(n, ast.If) and ast.unparse(n.test) == "in_fix_mode":
+            if any(isinstance(x, ast.Call) and ast.unparse(x.func).endswith("__fix_specific_file") for b in n.body for x in ast.walk(b)):
+                ok_guard = True
+    only_caller = callers.get(entry, set()) == {"process_files_to_scan"}
+    out.append({"name": "structural::C10::fix_only_reachability", "ok": ok_graph and ok_guard and only_caller, "info": scan_is_read_only.__doc__,
+                "detail": f"functions above the write sites: {sorted(seen)}; public: {pub}; leaks: {leak}; guarded call: {ok_guard}; callers of __fix_specific_file: {callers.get(entry)}"})
+    return out
